@@ -50,7 +50,7 @@ class LCtx(CCtx):
         return self.locals[name]
 
     def lt(self, name):
-        return self.locals[name].t
+        return self.local(name).t
 
     def ret(self) -> SV:
         """the local variable returned by the function's final `return <name>`"""
